@@ -131,6 +131,10 @@ def row(fn, kind, n, idx=0):
         r["lb"], r["ub"] = centre - 0.5, centre + 0.25
     elif kind == "freerow":  # a row without any bound (a user may keep it for bookkeeping): it must not constrain anything
         r["lb"], r["ub"] = NINF, INF
+    elif kind == "introw":   # integral row bounds (handed over as an integer-typed array when every bound of the problem is integral)
+        r["lb"], r["ub"] = centre - 1.0, centre + 2.0
+    elif kind == "inteq":
+        r["lb"], r["ub"] = centre + 1.0, centre + 1.0
     elif kind == "narrow":   # ranged row of large magnitude whose width is tiny relative to it (still a range, not an equation)
         r["b"] = r.get("b", 0.0) + 1000.0
         r["lb"], r["ub"] = centre + 1000.0, centre + 1000.004
